@@ -2,6 +2,11 @@
 From FrameModel Require Import Num.QcTac Geometry.Rect Cases.Cmp Alloc.Alloc Alloc.Hist.
 Open Scope Qc_scope.
 
+(* m * 2^e: how the correspondence files write binary64 values of extreme magnitude (1e308, 5e-324) - a decimal
+   literal of 300 digits takes Coq a quarter of a second to read *)
+Definition qdy (m e : Z) : Qc :=
+  if (0 <=? e)%Z then Q2Qc (inject_Z (m * 2 ^ e)) else Q2Qc (m # Z.to_pos (2 ^ (- e))).
+
 Definition alloc_eqb (a b : alloc) : bool :=
   list_eqb (fun p q => String.eqb (fst p) (fst q) && Qceqb (snd p) (snd q)) a b.
 Definition cell_eqb (a b : cell) : bool :=
